@@ -1,2 +1,3 @@
 import NaunetModel.OdeGen
 import NaunetModel.Solve
+import NaunetModel.Network
